@@ -120,3 +120,52 @@ func cmdReplay(args []string) int {
 	fmt.Printf("NOT-REPRODUCED %s\n", rf.Key)
 	return 0
 }
+
+// nativeSweep runs harness hname natively on pseudo-random inputs (sampling; validates the trusted base,
+// e.g. the reflection codec against the reference encoding in C12). Returns (runs, ok, output).
+func nativeSweep(ld *Loaded, h *HarnessCfg, instances, rounds, seed int) (int, bool, string) {
+	os.MkdirAll(filepath.Join(verifDir, ".work"), 0o755)
+	work, err := os.MkdirTemp(filepath.Join(verifDir, ".work"), "sweep")
+	if err != nil {
+		return 0, false, err.Error()
+	}
+	defer os.RemoveAll(work)
+	pkgDir := filepath.Dir(h.File)
+	ov := map[string]string{}
+	i := 0
+	for vp, src := range ld.overlay {
+		if filepath.Dir(vp) != pkgDir {
+			continue
+		}
+		real := filepath.Join(work, fmt.Sprintf("f%d_%s", i, filepath.Base(vp)))
+		i++
+		os.WriteFile(real, src, 0o644)
+		ov[vp] = real
+	}
+	test := "package " + packageClause(ld.overlay[h.File]) + "\n\nimport \"testing\"\n\nfunc TestVerifReplay(t *testing.T) { verifReplayMain(t, map[string]func(){\n"
+	for _, n := range ld.order {
+		hh := ld.harnesses[n]
+		if filepath.Dir(hh.File) == pkgDir {
+			test += fmt.Sprintf("\t%q: %s,\n", hh.Name, hh.Name)
+		}
+	}
+	test += "}) }\n"
+	tp := filepath.Join(work, "zz_verif_replay_test.go")
+	os.WriteFile(tp, []byte(test), 0o644)
+	ov[filepath.Join(pkgDir, "zz_verif_replay_test.go")] = tp
+	ovj, _ := json.Marshal(map[string]interface{}{"Replace": ov})
+	ovp := filepath.Join(work, "overlay.json")
+	os.WriteFile(ovp, ovj, 0o644)
+	cmd := exec.Command("go", "test", "-v", "-vet=off", "-count=1", "-overlay", ovp, "-run", "^TestVerifReplay$", ".")
+	cmd.Dir = pkgDir
+	cmd.Env = append(os.Environ(), "GOFLAGS=-mod=mod", "GOPROXY=off", "GOSUMDB=off", "GOTOOLCHAIN=local",
+		fmt.Sprintf("VERIF_SWEEP=%s:%d:%d:%d", h.Name, instances, rounds, seed))
+	out, _ := cmd.CombinedOutput()
+	s := string(out)
+	runs := 0
+	if k := strings.Index(s, "VERIF-SWEEP-OK"); k >= 0 {
+		fmt.Sscanf(s[k:], "VERIF-SWEEP-OK "+h.Name+" runs=%d", &runs)
+		return runs, true, s
+	}
+	return 0, false, s
+}
